@@ -63,6 +63,7 @@ type Machine struct {
 	inInit   int
 	uniq     []uniqEntry
 	onceDone map[*Node]bool
+	syncMaps map[*Node][]syncMapEntry // sync.Map contents, keyed by the node holding the map value
 	aeadLog  []aeadEnc
 	zoneOff  map[*Node]*Term
 	locOff   map[*Node]*Term
@@ -1335,6 +1336,13 @@ func (m *Machine) doCall(in *ssa.Call, fr *frame) Value {
 				a = append(a, m.eval(x, fr))
 			}
 			return m.verifierInvoke(sv, c.Method.Name(), a)
+		}
+		if sh, ok := recv.val.(*StubHasher); ok {
+			var a []Value
+			for _, x := range c.Args {
+				a = append(a, m.eval(x, fr))
+			}
+			return m.hasherInvoke(sh, c.Method.Name(), a)
 		}
 		if _, ok := recv.val.(Opaque); ok {
 			m.end("unsupported", "invoke on opaque value: "+c.Method.Name())
